@@ -204,6 +204,17 @@ def _sed(ctx, case, rec, d, key):
             _viol(rec, 'sed-write|apertures', case, {'file': a_file, 'stored': ap})
         rec.outcome(('sed-file', tuple(np.round(w_file, 6))))
         return
+    if n_wav % 2 == 1:
+        # an older, different SED lies next to the file under the same name + '.gz' (what a user who re-ran a model and kept
+        # the compressed old output has): the file that was asked for is the one that must be read
+        import gzip
+        old_dir = os.path.join(d, 'old')
+        os.makedirs(old_dir, exist_ok=True)
+        pkgwriter.write_sed_file(old_dir, 'model_old', wav, cells * 2.0 + 1.0, err * 3.0, apertures_au=ap, unit=uq.to_string(format='fits'), filename='o.fits',
+                                 distance_cm=2.5 * pkgwriter.KPC_CM)
+        with open(os.path.join(old_dir, 'seds', 'o.fits'), 'rb') as fi, gzip.open(fn + '.gz', 'wb') as fo:
+            fo.write(fi.read())
+        rec.cls('stale-gz-sibling')
     reads = {}
     for order in ('nu', 'wav'):
         rec.cls('read-order-' + order)
